@@ -45,6 +45,9 @@ func buildPrefixes(h *harness, maxStr int) []*prefixState {
 		{"filled-then-shrunk-to-64", []stepT{
 			{[]byte{0x40, 1, 'a', 1, 'b', 0x40, 1, 'c', 1, 'd', 0x41, 1, 'e'}, -1},
 			{[]byte{0x3f, 0x21, 0xbe}, 64}}},
+		// a table that holds exactly its one entry (34 octets): the next insertion evicts it, and an entry larger than
+		// the whole table (41 01 61: :authority with a one-octet value, 43 octets) must leave the table empty (RFC 7541 4.4)
+		{"full-table-of-34", []stepT{{[]byte{0x3f, 0x03, 0x40, 1, 'a', 1, 'b'}, 34}}},
 	}
 	var out []*prefixState
 	for _, sc := range scripts {
